@@ -156,11 +156,18 @@ func cmdWorker(args []string) int {
 
 	// CPU watchdog: a case that burns more than its budget of process CPU time
 	// ends the child with exit code 3; the parent re-runs it alone.
-	var caseStartCPU, caseBudget int64
+	var caseStartCPU, caseBudget, minStartCPU int64
 	atomic.StoreInt64(&caseStartCPU, -1)
+	atomic.StoreInt64(&minStartCPU, -1)
 	go func() {
 		for {
 			time.Sleep(100 * time.Millisecond)
+			if ms := atomic.LoadInt64(&minStartCPU); ms >= 0 && int64(processCPU())-ms > int64(90*time.Second) {
+				// A candidate of the minimiser made the library hang or crawl: give up minimising.
+				// The parent runs the batch again with minimisation switched off.
+				fmt.Fprintf(os.Stderr, "cmcheck worker: CPU budget exceeded while minimising a violating input\n")
+				os.Exit(4)
+			}
 			st := atomic.LoadInt64(&caseStartCPU)
 			if st < 0 {
 				continue
@@ -234,7 +241,9 @@ func cmdWorker(args []string) int {
 			if len(res.Violations) < 400 {
 				rec := mkRec(cf.property, *profile, c, v.Code, v.Msg)
 				if !*noMin && len(c.Input) > 0 && len(c.Input) <= 8192 && minimisable(m, c) && v.Code != "panic" {
+					atomic.StoreInt64(&minStartCPU, int64(processCPU()))
 					min, msg := minimise(m, cf.tier, c, v.Code)
+					atomic.StoreInt64(&minStartCPU, -1)
 					if len(min) < len(c.Input) {
 						rec.MinInput = base64.StdEncoding.EncodeToString(min)
 						rec.MinMsg = msg
